@@ -102,6 +102,11 @@ Proof.
   - exact H.
   - cbn [fst]. unfold store_step. destruct (inflight s); [|exact H]. destruct (flushing s) as [[g fb]|]; [|exact H].
     destruct (nth_error fb (N.to_nat i)) as [[k v]|]; [|exact H]. eapply oinv_frame; [exact H|..]; reflexivity.
+  - cbn [fst]. unfold complete_exist. destruct (inflight s) eqn:Ei; [|exact H].
+    eapply oinv_frame; [apply (oinv_complete s w false H)|..]; reflexivity.
+  - cbn [fst]. unfold tm_start. destruct (_ && _); [|exact H]. eapply oinv_frame; [exact H|..]; reflexivity.
+  - cbn [fst]. eapply oinv_frame; [exact H|..]; reflexivity.
+  - exact H.
 Qed.
 
 Lemma oinv_run P ops : oinv (run P ops) (wrun ops).
